@@ -18,7 +18,7 @@ func init() {
 	core.Register(&core.Check{
 		ID: "C16", Level: "other", Title: "Block execution is deterministic",
 		Explain: "Reachability of forbidden effects over the module call graph (VTA over CHA plus a callback rule for function values): roots are LedgerStoreImp.executeBlock, every handler registered with NativeService.Register and every method of every ChainHandler / HeaderSyncHandler implementation; sinks are wall-clock reads (time.Now/Since/Until/After/Tick/NewTimer/NewTicker), math/rand package functions and unseeded generators, crypto/rand, os.Getenv/Hostname/Getpid, runtime.NumCPU/NumGoroutine, go statements and multi-way selects; the shortest call path is printed for every hit. Map-order sensitivity: every range over a map in the reachable set is classified by the effects of its body — order-insensitive forms are: writes into a map/set, delete, commutative accumulation, idempotent flag set, early failure return, collect→sort, min/max selection with a strict tie-free comparison, membership search; anything else whose effects escape the loop is a violation. Boundary: common/log and the event publisher are excluded (output only). NOT decided: nondeterminism inside dependency code beyond the sink table.",
-		Run: runC16,
+		Run:     runC16,
 	})
 }
 
